@@ -161,7 +161,8 @@ theorem emu_refines_term_long {t : Term.T} {e : Emu} {rows cols : Nat} (f : Nat)
       rw [if_pos ⟨hf, h84⟩] at h
       exact h
     · rename_i heq; cases heq
-    · rename_i hne _; exact absurd rfl (hne f pm)
+    · rename_i heq; cases heq
+    · rename_i hne _ _; exact absurd rfl (hne f pm)
   exact emu_refines_step_long _ tok
     ⟨f, pm, rfl, hf, h84, h', fun ps hps => absurd hps (tokOf_one_not_sgr f _ tok hf h' ps), fun g w hc => by cases hc⟩ s2
 
@@ -188,7 +189,8 @@ theorem emu_refines_term_two {t : Term.T} {e : Emu} {rows cols : Nat} (f : Nat) 
       rw [if_neg hno, if_pos ⟨hf, hl⟩] at h
       exact h
     · rename_i heq; cases heq
-    · rename_i hne _; exact absurd rfl (hne f pm)
+    · rename_i heq; cases heq
+    · rename_i hne _ _; exact absurd rfl (hne f pm)
   exact emu_refines_step_two f pm tok hf hl h' s2
 
 /-- Non-vacuity: `CSI 2;3;9 H` is CUP 2 3, `CSI 1;2;7:1;0 r` is DECSTBM 1 2; a sub-parameter in one of the first two is outside. -/
@@ -243,6 +245,15 @@ theorem emu_refines_term_osc8 {t : Term.T} {e : Emu} {rows cols : Nat} (d : List
 example : tokOfX (.osc [56, 59, 105, 100, 61, 49, 59, 104, 116, 116, 112, 58, 47, 47, 120] {}) =
       some (.osc8 [105, 100, 61, 49] [104, 116, 116, 112, 58, 47, 47, 120]) ∧
     tokOfX (.osc [56, 59, 59] {}) = some (.osc8 [] []) ∧ tokOfX (.osc [48, 59, 116] {}) = none := by decide
+
+/-- **RIS** (`ESC c`, round 3; F106e repaired): from EVERY related pair of states — whatever margins, pen, saved cursors,
+    modes and screen were in effect — the step succeeds and the emulator is related to the reference's power-on state of
+    the same size (blank screens, cursor home, default pen, full-screen margins, no saved cursor, primary screen).
+    Before the repair the top margin, the pen and the saved cursors survived (`Witness/F106e.lean`). -/
+theorem emu_refines_term_ris {t : Term.T} {e : Emu} {rows cols : Nat} (s2 : Sim2 t e rows cols) :
+    tokOfX (.esc [99]) = some .ris ∧
+    ∃ r, emuStep e (.esc [99]) = .ok r ∧ Refines2 (Term.step t .ris) r.1 rows cols :=
+  ⟨rfl, ris_step s2⟩
 
 /-- `tokOfX` agrees with these statements: its tokens for the two cursor functions. -/
 example : tokOfX (.csi [63, 108] [(25, [])]) = some (.showCursor false) ∧
